@@ -10,7 +10,12 @@ fn build(rng: &mut Rng) -> World { let dir = tempfile::tempdir().expect("tmp"); 
 /// generation g > 0: same path, same names, different bytes, and a different set of absent names
 fn build_at(rng: &mut Rng, dir: tempfile::TempDir, g: usize) -> World {
     let path = dir.path().join("par.mpq");
-    let mut b = ArchiveBuilder::new().listfile_option(ListfileOption::Generate);
+    // generation 2 carries no (listfile), generation 3 an external one that names only every second member: a name resolves
+    // through the hash tables, not through the listing
+    let lf = match g { 2 => ListfileOption::None, 3 => { let lp = dir.path().join("partial-listfile.txt");
+            let txt: String = (0..48).filter(|i| i % 2 == 0).map(|i| format!("Data\\Sub{}\\File_{:02}.txt\r\n", i % 3, i)).collect(); let _ = std::fs::write(&lp, txt); ListfileOption::External(lp) }
+        _ => ListfileOption::Generate };
+    let mut b = ArchiveBuilder::new().listfile_option(lf);
     let mut names = vec![]; let mut present = vec![];
     for i in 0..48 {
         let name = format!("Data\\Sub{}\\File_{:02}.txt", i % 3, i);
@@ -139,8 +144,10 @@ pub fn run(ctx: &mut Ctx) {
     // the first extraction (handles, parsed tables) may show through
     {
         let World { path: _, names: _, present: _, seq: _, _dir } = w;
+        let mut dir = Some(_dir);
+      for g in 1..=3usize {
         let mut rng = ctx.rng.clone();
-        let w2 = build_at(&mut rng, _dir, 1);
+        let w2 = build_at(&mut rng, dir.take().expect("dir"), g);
         ctx.rng = rng;
         let pa2 = ParallelArchive::open(&w2.path).expect("open parallel, second generation");
         for rep in 0..3 {
@@ -148,17 +155,21 @@ pub fn run(ctx: &mut Ctx) {
             let sp: Vec<String> = idx.iter().map(|i| w2.names[*i].clone()).collect();
             let refs: Vec<&str> = sp.iter().map(|s| s.as_str()).collect();
             let g1 = pa2.extract_files_parallel(&refs).map(|v| v.into_iter().map(|(n, d)| (n, Ok(d))).collect()).map_err(|e| e.to_string());
-            check(ctx, &w2, &format!("second generation at the same path, extract_files_parallel (rep {rep})"), &idx, &sp, g1, "u", false, 1);
+            check(ctx, &w2, &format!("generation {g} at the same path, extract_files_parallel (rep {rep})"), &idx, &sp, g1, "u", false, 1);
             let g3 = pa2.process_files_parallel(&refs, |n, d| Ok((n.to_string(), d))).map(|v| v.into_iter().map(|(n, d)| (n, Ok(d))).collect()).map_err(|e| e.to_string());
-            check(ctx, &w2, &format!("second generation at the same path, process_files_parallel (rep {rep})"), &idx, &sp, g3, "u", false, 1);
+            check(ctx, &w2, &format!("generation {g} at the same path, process_files_parallel (rep {rep})"), &idx, &sp, g3, "u", false, 1);
             let cfg = ParallelConfig::new().threads(4).batch_size(7).skip_errors(true);
             let all: Vec<usize> = (0..w2.names.len()).collect();
             let spa: Vec<String> = all.iter().map(|i| w2.names[*i].clone()).collect();
             let refa: Vec<&str> = spa.iter().map(|s| s.as_str()).collect();
             let g4 = extract_with_config(&w2.path, &refa, cfg).map(|v| v.into_iter().map(|(n, r)| (n, r.map_err(|e| e.to_string()))).collect()).map_err(|e| e.to_string());
-            check(ctx, &w2, &format!("second generation at the same path, extract_with_config (rep {rep})"), &all, &spa, g4, "u", true, 7);
-            ctx.out.stat("c09.second_generation");
+            check(ctx, &w2, &format!("generation {g} at the same path, extract_with_config (rep {rep})"), &all, &spa, g4, "u", true, 7);
+            ctx.out.stat(&format!("c09.generation_{g}"));
         }
+        drop(pa2);
+        let World { path: _, names: _, present: _, seq: _, _dir } = w2;
+        dir = Some(_dir);
+      }
     }
     stop.store(true, std::sync::atomic::Ordering::Relaxed);
     for b in burners { let _ = b.join(); }
